@@ -663,18 +663,30 @@ func specPortImm(s string) byte { v, _ := strconv.ParseUint(s, 0, 8); return byt
 
 func specPortImmOK(s string) bool { _, err := strconv.ParseUint(s, 0, 8); return err == nil }
 
-// specInOutBytes: out is [66h] opcode [ib] for accumulator acc (upper case) and port operand port.
-func specInOutBytes(out []byte, acc, port string, opAL8, opWide8, opALdx, opWideDx byte) bool {
+// specNeed66InOut: IN/OUT need the operand-size prefix exactly when the accumulator operand (operand
+// i, as the operand parser classified it: A1) is the 16-bit one in 32-bit mode or the 32-bit one in
+// 16-bit mode.
+func specNeed66InOut(mode int, ts []ng_operand.OperandType, i int) bool {
+	if i >= len(ts) {
+		return false
+	}
+	t := ts[i]
+	return (mode == 16 && (t == ng_operand.CodeEAX || t == ng_operand.CodeR32)) || (mode == 32 && (t == ng_operand.CodeAX || t == ng_operand.CodeR16))
+}
+
+// specInOutBytes: out is [66h iff need66] opcode [ib] for accumulator acc (upper case) and port operand port.
+func specInOutBytes(out []byte, need66 bool, acc, port string, opAL8, opWide8, opALdx, opWideDx byte) bool {
 	isDX := strings.ToUpper(port) == "DX"
 	n := len(out)
 	tail := 1
 	if !isDX {
 		tail = 2
 	}
-	if n != tail && n != tail+1 {
-		return false
-	}
-	if n == tail+1 && out[0] != 0x66 {
+	if need66 {
+		if n != tail+1 || out[0] != 0x66 {
+			return false
+		}
+	} else if n != tail {
 		return false
 	}
 	op := out[n-tail]
@@ -692,16 +704,16 @@ func specInOutBytes(out []byte, acc, port string, opAL8, opWide8, opALdx, opWide
 }
 
 //@ func handleIN
-//@ props C01 C13
-//@ requires ctx != nil
-//@ ensures[bytes] result1 == nil ==> len(params.Operands) == 2 && specInOutBytes(result0, strings.ToUpper(params.Operands[0]), params.Operands[1], 0xE4, 0xE5, 0xEC, 0xED)
+//@ props C01 C13 C03
+//@ requires ctx != nil && (ctx.BitMode == cpu.MODE_16BIT || ctx.BitMode == cpu.MODE_32BIT)
+//@ ensures[bytes] result1 == nil ==> len(params.Operands) == 2 && specInOutBytes(result0, specNeed66InOut(specMode(ctx.BitMode), vcResult[[]ng_operand.OperandType]("OperandTypes", 0), 0), strings.ToUpper(params.Operands[0]), params.Operands[1], 0xE4, 0xE5, 0xEC, 0xED)
 //@ ensures[noacc] len(params.Operands) == 2 && strings.ToUpper(params.Operands[0]) != "AL" && strings.ToUpper(params.Operands[0]) != "AX" && strings.ToUpper(params.Operands[0]) != "EAX" ==> result1 != nil
 //@ assigns OperandPegImpl.bitMode, OperandType[]
 
 //@ func handleOUT
-//@ props C01 C13
-//@ requires ctx != nil
-//@ ensures[bytes] result1 == nil ==> len(params.Operands) == 2 && specInOutBytes(result0, strings.ToUpper(params.Operands[1]), strings.ToUpper(params.Operands[0]), 0xE6, 0xE7, 0xEE, 0xEF)
+//@ props C01 C13 C03
+//@ requires ctx != nil && (ctx.BitMode == cpu.MODE_16BIT || ctx.BitMode == cpu.MODE_32BIT)
+//@ ensures[bytes] result1 == nil ==> len(params.Operands) == 2 && specInOutBytes(result0, specNeed66InOut(specMode(ctx.BitMode), vcResult[[]ng_operand.OperandType]("OperandTypes", 0), 1), strings.ToUpper(params.Operands[1]), strings.ToUpper(params.Operands[0]), 0xE6, 0xE7, 0xEE, 0xEF)
 //@ assigns OperandPegImpl.bitMode, OperandType[]
 
 // specIsMemText: the test the ModR/M builders use to tell a memory operand from a register name.
